@@ -72,7 +72,8 @@ var propConfigs = map[string]*propConfig{
 		"float16/float32, fixed point, FloPoCo and linear-quantiser import/export go through strconv.ParseFloat and float scaling: floating point is outside this family; only the integer notations (unsigned, signed, bin, hex) are under functional contract",
 		"the regular languages are those of Go's regexp/syntax parse of the pattern strings found in the importMatchers methods; runes above U+2FFFF are clipped (SMT-LIB string alphabet)",
 	}},
-	"C09": {pkgs: []string{"./pkg/procbuilder", "./pkg/simbox", "./pkg/bmnumbers"}, notes: []string{
+	"C09": {pkgs: []string{"./pkg/procbuilder", "./pkg/simbox", "./pkg/bmnumbers", "./pkg/bondmachine"}, notes: []string{
+		"decided for the per-processor workers: every round of bondmachine.VM.Processor_execute (one token received, one answer sent) writes only the state of processor procId; the segments between channel operations are each checked against the loop's modifies clause, and what other goroutines may change at a channel operation is everything except the worker's own processor's fields (sync preserves)",
 		"decided for the run-time type registry: bmnumbers.EventuallyCreateType, which the simulator calls for every shown value on every tick, writes nothing (type list and matcher table unchanged) when the type is already registered; the type creators themselves are trusted",
 		"decided: every Opcode.Simulate (all opcode types except the nine emulator opcodes, which send on the VM's command channel) writes only cells of the VM it is given and reads only that VM and its machine description; run-time panics and callee preconditions are assumed not to occur (frameonly contracts)",
 		"not decided: the goroutine scheduler, the per-tick channel barrier of bondmachine.VM.Step, GOMAXPROCS, the race detector, and simbox.DelayDistribution (draws from the process-wide math/rand source by design)",
